@@ -12,7 +12,8 @@ RULE = ("decision table: 3 join kinds x 4 valid + 6 invalid expect values x ever
 ASSUMPTIONS = ["all-None key column versus typed key column is rejected by dtype validation: not judged"]
 
 VALID = {"one_to_one": (True, True), "many_to_one": (False, True), "one_to_many": (True, False), "many_to_many": (False, False)}
-INVALID = ["", "one-to-one", "MANY_TO_MANY", "many_to_many ", None, 1]
+INVALID = ["", "one-to-one", "MANY_TO_MANY", "many_to_many ", None, 1, "one_to_one\n", "many_to_many\n", "\none_to_many", "many_to_one\r\n", "one_to_one\x00",
+           "one_to_one_to_one", "one_to_", b"one_to_one", ("one_to_one",)]
 METHODS = ("inner_join", "join", "full_join")
 
 
